@@ -489,7 +489,32 @@ def r8_per_function_points(repo: Repo, rep):
         rep.undecided(R, "src/torchphysics/problem/conditions/deeponet_condition.py", "DeepONet conditions", "a tracked draw in an operator condition", "none found")
 
 
+def r9_function_set_flag(repo: Repo, rep):
+    R = rep.rule("R-C04-9", "DeepONet conditions decide whether to hand the input functions to the residual from ALL declared residual parameters (residual_fn.args), "
+                 "not only from those without a default", floor=1,
+                 why="a residual `def r(u, t, f=0.0)` names the function-space output too: deciding by necessary_args silently evaluates it with f = 0.0 instead of the sampled functions")
+    ci = repo.cls("problem.conditions.deeponet_condition.DeepONetSingleModuleCondition")
+    init = ci.methods.get("__init__")
+    if init is None:
+        raise AnalysisError("DeepONetSingleModuleCondition.__init__ vanished")
+    rep.saw(init)
+    from ..util import deref, single_defs
+    tmp = single_defs(init.node)
+    stores = [n for n in ast.walk(init.node) if isinstance(n, ast.Assign) and any(dump(t) == "self.eval_function_set" for t in n.targets)]
+    if not stores:
+        rep.undecided(R, init.site(), init.fq, "self.eval_function_set assigned", "not found")
+        return
+    for st in stores:
+        v = deref(st.value, tmp)
+        names = {x.attr for x in ast.walk(v) if isinstance(x, ast.Attribute) and dump(x.value).endswith("residual_fn")}
+        if not names:
+            rep.undecided(R, init.site(st), init.fq, "the flag is derived from the residual's parameters", dump(v)[:100])
+            continue
+        rep.check(R, names == {"args"}, init.site(st), init.fq, "derived from residual_fn.args", f"derived from residual_fn.{sorted(names)}", f"flag from {sorted(names)}")
+
+
 def run(repo: Repo, rep):
+    r9_function_set_flag(repo, rep)
     from .generic import g_arg_constructor_parameters
     g_arg_constructor_parameters(repo, rep, lambda m: ".conditions." in m, floor=10,
                                  why="a condition that ignores a constructor argument (weight, norm, root, data functions, parameter) computes another loss than documented")
@@ -503,6 +528,8 @@ def run(repo: Repo, rep):
     r1b_setup(repo, rep)
     from .c12 import r3_selection  # name-based selection used by every model's input re-ordering
     r3_selection(repo, rep)
+    from .c16 import r1_points_dataset  # a data condition's rows are (input_i, target_i): the loader must permute and window inputs and targets alike
+    r1_points_dataset(repo, rep)
     from .c08 import r2_fix_points_order  # "the model outputs at those rows", whatever the variable order of the sampler's space
     r2_fix_points_order(repo, rep)
     from .c13 import r6_no_alias  # conditions re-wrap residual and data functions: values bound with set_default must survive the re-wrap
